@@ -249,7 +249,8 @@ func (obj SparseConstInt8Vector) ITERATOR() *SparseConstInt8VectorIterator {
   return &r
 }
 func (obj SparseConstInt8Vector) ITERATOR_FROM(i int) *SparseConstInt8VectorIterator {
-  k := 0
+  // no entry at or behind position i: the iterator is exhausted
+  k := len(obj.indices)
   for j, idx := range obj.indices {
     if idx >= i {
       k = j
